@@ -204,7 +204,7 @@ fn gen(rng: &mut Rng, i: u64) -> String {
 		}
 		pokes.push((off, buf));
 	}
-	let img = Image { len, fill: rng.range(1, 999) as u32, hdr: spec.header_bytes(), pokes };
+	let img = Image { len, fill: rng.range(1, 999) as u32, hdr: scrambled_header(&spec, rng), pokes };
 
 	// ---- range
 	let mut edges: Vec<i64> = vec![0, 0x1000, spec.soi as i64, len as i64];
